@@ -138,7 +138,7 @@ def cases(tier):
 def _configs(case):
     P = TIERS[case["tier"]]
     sched, dt = case["schedule"], case["dt_init"]
-    first = sched[1] - sched[0]
+    first = round(sched[1] - sched[0], 10)
     if case["dtmm"] == "constant":
         yield {"schedule": sched, "dt_init": dt, "constant_dt": True, "dt_min_max": None}
         return
@@ -340,8 +340,8 @@ def run_case(case) -> Outcome:
     out = Outcome()
     P = TIERS[case["tier"]]
     sched, dt = case["schedule"], case["dt_init"]
-    first = sched[1] - sched[0]
-    assert dt <= first * (1 + 1e-12)
+    first = round(sched[1] - sched[0], 10)
+    assert dt <= first * (1 + 1e-12)  # the initial step fits in the first scheduled interval
     for j, cfg in enumerate(_configs(case)):
         cid = (tuple(sched), dt, case["dtmm"], j)
         valid, why = T.documented_valid(cfg)
